@@ -495,6 +495,12 @@ fn check_variant(
     }
     if got_ex != exp_ex {
         bad.push(("wiring", format!("exports: output {got_ex:?} / composition {exp_ex:?}")));
+        // the set of export names is part of the interface (C03) as well as of the wiring (C02)
+        let gk: Vec<&String> = got_ex.keys().collect();
+        let ek: Vec<&String> = exp_ex.keys().collect();
+        if gk != ek {
+            bad.push(("interface", format!("export names: output {gk:?} / composition {ek:?}")));
+        }
     }
     // export kinds: the kind of the designated item
     let g = &m.world.graph;
@@ -549,7 +555,7 @@ fn check_variant(
             let sort = match x["sort"].as_str().unwrap() {
                 "inst" => "instance",
                 "func" => "func",
-                "type" => "type",
+                "type" | "rtype" => "type",
                 o => o,
             };
             json!([sort, format!("nm{}", x["id"]), norm_spec_term(&x["term"])]).to_string()
